@@ -400,6 +400,26 @@ func (x *run) checkGone(rs *repState, ns, id string, remotes []string, before *f
 func (x *run) stepWipe(rs *repState, s *sim.Step) error {
 	r := rs.r
 	x.stepCommit(rs, &sim.Step{})
+	if r.Cache != nil && r.C != nil && s.Id%2 == 0 {
+		// what the wipe command is built on, met by one I/O error: a RemoveAll that reports success
+		// all the same must have removed every bug and identity
+		r.C.ArmErr("any", (s.Id/2+s.N)%8, 1)
+		err := r.Cache.RemoveAll()
+		if r.C.DisarmErr() > 0 {
+			x.w.Stats.Fault("ioerr-any")
+			x.probe("remove_all_met_an_io_error")
+			if err == nil {
+				x.probe("io_error_not_reported_by_the_step")
+				refs, _ := r.Raw.ListRefs("refs/")
+				for _, ref := range refs {
+					if isGitBugRef(ref) {
+						x.violate("wipe-left-residue", "RemoveAll on %s met an I/O error at one of its storage mutations and reported success, but the ref %s is still there", r.Name, ref)
+						break
+					}
+				}
+			}
+		}
+	}
 	_ = r.CloseClean()
 	rs.alive = false
 	rs.staged = map[string]bool{}
